@@ -252,6 +252,36 @@ def _worker(job):
                         seen.add(n)
                         fails.append((compared[i], tag + ":" + n, "%s[%d] = %r at signs=%r but %r at the completely flipped point obtained by re-using the evaluated model (%s) (rel. diff %.3e)"
                                       % (n, j, x, list(compared[i]), y, var, rel)))
+    # order of the setter calls: the member p is built in the canonical order, its flipped partner in another one
+    # (tan(beta) before the SM inputs, SM inputs last, all setters reversed, SM inputs overwritten), both with a
+    # non-default SM input set; same comparison.  Thin subset: the benchmark-derived base points.
+    if compared and base in mssmrun.BENCH_POINTS:
+        sel = list(enumerate(compared))
+        opts = []
+        for i, p in sel:
+            o, sm = 1 + i % 4, 1 + i % 3
+            opts.append(mssmrun.os_point(base, tb, p, order=0, sm=sm))
+            opts.append(mssmrun.os_point(base, tb, tuple(-x for x in p), order=o, sm=sm))
+        ores = mssmrun.run_os(opts, "plain")
+        okp = [i for i, _ in sel if ores[2 * i][0] == "OK" and ores[2 * i + 1][0] == "OK"]
+        for i, p in sel:
+            a, b = ores[2 * i], ores[2 * i + 1]
+            if (a[0] != "OK" or b[0] != "OK") and (a[0] != b[0] or a[1:] != b[1:]):
+                fails.append((p, "order%d:status" % (1 + i % 4), "spectrum status differs between a point (canonical set-up order) and its flip built in order %d: %r vs %r" % (1 + i % 4, a[:3] if a[0] != "OK" else "OK", b[:3] if b[0] != "OK" else "OK")))
+        if okp:
+            A = np.stack([ores[2 * i][1] for i in okp])
+            B = np.stack([ores[2 * i + 1][1] for i in okp])
+            bads, _ = compare_block(lay, A, B)
+            nre += len(okp)
+            for i, bad in zip(okp, bads):
+                seen = set()
+                for n, j, x, y, rel in bad:
+                    if n in seen:
+                        continue
+                    seen.add(n)
+                    fails.append((compared[i], "order%d:%s" % (1 + i % 4, n),
+                                  "%s[%d] = %r at signs=%r (canonical set-up order) but %r at the completely flipped point set up in order %d, SM input set %d (rel. diff %.3e)"
+                                  % (n, j, x, list(compared[i]), y, 1 + i % 4, 1 + i % 3, rel)))
     return base, tb, fails, worst, skipped, compared, skip_reasons, nre
 
 
@@ -337,7 +367,7 @@ def run(ctx):
     if missing or len(classes.get("ordering", {})) < 120:
         ctx.cap("ordering-classes-not-all-compared: missing %r, %d of 120 orderings" % (missing, len(classes.get("ordering", {}))))
     ctx.note("pairs_compared", ncmp)
-    ctx.note("pairs_compared_with_partner_on_reused_model", nreused)
+    ctx.note("pairs_compared_with_partner_on_reused_model_or_in_another_setup_order", nreused)
     ctx.note("pairs_skipped(threw/problem)", nskip)
     ctx.note("skip_reasons", reasons)
     ctx.note("quantities_compared_per_pair", nq)
@@ -410,6 +440,19 @@ def replay(ctx, path):
         for n, j, x, y, rel in b2[:10]:
             print("replay: %s[%d] = %r vs %r at the flipped point built on the re-used model (%s) (rel %.3e)" % (n, j, x, y, var, rel))
         bad = bad + b2
+    # flipped partner set up in a non-canonical order of the setter calls, non-default SM input sets
+    for o in (1, 2, 3, 4):
+        for sm in (1, 2, 3):
+            ra, rb = mssmrun.run_os([mssmrun.os_point(dd["base"], tb, p, order=0, sm=sm), mssmrun.os_point(dd["base"], tb, q, order=o, sm=sm)], "plain")
+            if ra[0] != "OK" or rb[0] != "OK":
+                if ra[0] != rb[0] or ra[1:] != rb[1:]:
+                    print("replay: status differs for set-up order %d, SM set %d: %r vs %r" % (o, sm, ra[:3], rb[:3]))
+                    bad = bad + [("status", 0, 0.0, 0.0, 0.0)]
+                continue
+            b3, _ = compare(lay, ra[1], rb[1])
+            for n, j, x, y, rel in b3[:3]:
+                print("replay: %s[%d] = %r vs %r at the flipped point set up in order %d, SM set %d (rel %.3e)" % (n, j, x, y, o, sm, rel))
+            bad = bad + b3
     if bad:
         print("VIOLATION property=C06 replay=%s" % path)
         return 1
